@@ -374,6 +374,16 @@ class ExprMixin(object):
 
     def compare_v(self, op, a, b, st, n):
         """yields (state, z3 Bool | ExcV)"""
+        if isinstance(op, (ast.In, ast.NotIn)) and isinstance(b, RefV) and b.kind == 'obj' and b.cls is not None and b.cls.find_method('__contains__')[1] is not None:
+            # membership in an object of a repository class: its own __contains__ (by contract or body)
+            c, m = b.cls.find_method('__contains__')
+            for s2, r in self.call_repo(None, ('method', b, c, m), [a], {}, st, n):
+                if is_exc(r):
+                    yield s2, r
+                else:
+                    t = truthy(r)
+                    yield s2, (t if isinstance(op, ast.In) else z3.Not(t))
+            return
         if isinstance(op, (ast.In, ast.NotIn)):
             r = self.contains_v(b, a, st, n)
             yield st, (r if isinstance(op, ast.In) else z3.Not(r))
